@@ -1,0 +1,581 @@
+//! Verification hooks. Only compiled with `--cfg multiqueue2_verif`.
+//!
+//! Drop-in replacements for the synchronisation primitives the queue uses
+//! (`AtomicUsize`, `AtomicPtr`, `fence`, `std::sync::Mutex`,
+//! `parking_lot::{Mutex, Condvar}`, `yield_now`, `sleep`). Every operation first
+//! reports to a `Runtime` registered by an external harness, which may suspend
+//! the calling thread (deterministic scheduling), and then performs the real
+//! operation. Without a registered runtime, or on a thread that is not marked as
+//! an agent, everything passes straight through to the real primitive.
+
+use std::cell::{Cell, UnsafeCell};
+use std::ops::{Deref, DerefMut};
+use std::sync::atomic as sa;
+use std::sync::atomic::Ordering;
+use std::sync::{LockResult, TryLockError, TryLockResult};
+
+#[derive(Clone, Copy, Debug, PartialEq, Eq)]
+pub enum OpKind {
+    Load,
+    Store,
+    Cas,
+    CasWeak,
+    FetchAdd,
+    FetchSub,
+    FetchOr,
+    FetchAnd,
+    PtrLoad,
+    PtrCas,
+    Lock,
+    TryLock,
+    CvWait,
+    CvNotifyAll,
+    Yield,
+    Sleep,
+}
+
+#[derive(Clone, Copy, Debug, PartialEq, Eq)]
+pub enum EvKind {
+    Alloc,
+    Dealloc,
+    Unlock,
+    Touch,
+}
+
+/// Implemented by the harness.
+pub trait Runtime: Sync {
+    /// Scheduling point: called before the operation is performed. May block.
+    /// For `Lock` it returns once the calling agent owns the lock.
+    fn op(&self, kind: OpKind, addr: usize, a: usize, b: usize);
+    /// Result of the operation announced by the last `op` of this thread.
+    fn done(&self, kind: OpKind, addr: usize, result: usize, ok: bool);
+    /// Something that is not a scheduling point.
+    fn event(&self, kind: EvKind, addr: usize, a: usize, name: &'static str);
+    /// Scheduling point; returns whether the lock was acquired.
+    fn try_lock(&self, addr: usize) -> bool;
+    /// Scheduling point; atomically releases `mutex` and sleeps on `cv`;
+    /// returns once woken up and owning `mutex` again.
+    fn cv_wait(&self, cv: usize, mutex: usize);
+    /// Should the weak compare-exchange about to run fail spuriously?
+    fn spurious(&self) -> bool;
+}
+
+static mut RUNTIME: Option<&'static dyn Runtime> = None;
+
+thread_local! {
+    static AGENT: Cell<bool> = Cell::new(false);
+}
+
+/// Install (or remove) the runtime. Must not race with running agents.
+pub unsafe fn set_runtime(rt: Option<&'static dyn Runtime>) {
+    RUNTIME = rt;
+}
+
+/// Mark the current thread as an agent thread (its operations go through the runtime).
+pub fn set_agent(on: bool) {
+    AGENT.with(|a| a.set(on));
+}
+
+#[inline]
+fn rt() -> Option<&'static dyn Runtime> {
+    unsafe {
+        match RUNTIME {
+            Some(r) if AGENT.with(|a| a.get()) => Some(r),
+            _ => None,
+        }
+    }
+}
+
+/// Report an allocation made through `alloc::allocate`.
+pub fn note_alloc(addr: usize, bytes: usize, name: &'static str) {
+    if let Some(r) = rt() {
+        r.event(EvKind::Alloc, addr, bytes, name);
+    }
+}
+
+/// Report a deallocation made through `alloc::deallocate`.
+pub fn note_dealloc(addr: usize, bytes: usize, name: &'static str) {
+    if let Some(r) = rt() {
+        r.event(EvKind::Dealloc, addr, bytes, name);
+    }
+}
+
+/// Report a (non atomic) dereference of a heap object managed by the memory manager.
+pub fn touch(addr: usize, name: &'static str) {
+    if let Some(r) = rt() {
+        r.event(EvKind::Touch, addr, 0, name);
+    }
+}
+
+// ---------------------------------------------------------------------------
+// Snapshot of the queue state (raw reads, only meaningful while all agents are
+// suspended) and the static layout, for the harness.
+
+#[derive(Clone, Debug, Default)]
+pub struct Snapshot {
+    pub capacity: usize,
+    pub head: usize,
+    pub tail_cache: usize,
+    pub writers: usize,
+    pub tags: Vec<usize>,
+    pub refs: Vec<usize>,
+    pub group: usize,
+    /// (address of the ReaderPos, its raw counter) in group order
+    pub streams: Vec<(usize, usize)>,
+    pub last_pos: usize,
+    pub signal: usize,
+    pub epoch: usize,
+    pub inner_epoch: usize,
+    /// (address of the token, its epoch) in registration order
+    pub tokens: Vec<(usize, usize)>,
+    pub tofree: Vec<usize>,
+    pub wait_to_free: Vec<usize>,
+    /// named addresses of the statically placed shared words and locks
+    pub layout: Vec<(&'static str, usize)>,
+}
+
+pub type SnapFn = unsafe fn(*const ()) -> Snapshot;
+
+thread_local! {
+    static QUEUE: Cell<Option<(SnapFn, *const ())>> = Cell::new(None);
+    static EXTRA: std::cell::RefCell<Vec<(&'static str, usize)>> = std::cell::RefCell::new(Vec::new());
+}
+
+/// Called by the queue constructor (on the constructing thread).
+pub fn register_queue(f: SnapFn, q: *const ()) {
+    QUEUE.with(|c| c.set(Some((f, q))));
+}
+
+/// Forget the registered queue (the harness calls this before the last handle goes).
+pub fn unregister_queue() {
+    QUEUE.with(|c| c.set(None));
+    EXTRA.with(|e| e.borrow_mut().clear());
+}
+
+/// Named addresses that do not live inside the queue object.
+pub fn register_extra(name: &'static str, addr: usize) {
+    EXTRA.with(|e| e.borrow_mut().push((name, addr)));
+}
+
+/// Snapshot of the queue most recently constructed on this thread.
+pub fn snapshot() -> Option<Snapshot> {
+    QUEUE.with(|c| c.get()).map(|(f, q)| {
+        let mut s = unsafe { f(q) };
+        EXTRA.with(|e| s.layout.extend(e.borrow().iter().cloned()));
+        s
+    })
+}
+
+// ---------------------------------------------------------------------------
+// Atomics
+
+#[inline]
+pub fn fence(ord: Ordering) {
+    sa::fence(ord)
+}
+
+pub struct AtomicUsize {
+    v: sa::AtomicUsize,
+}
+
+impl AtomicUsize {
+    pub const fn new(v: usize) -> AtomicUsize {
+        AtomicUsize {
+            v: sa::AtomicUsize::new(v),
+        }
+    }
+
+    #[inline]
+    fn addr(&self) -> usize {
+        self as *const AtomicUsize as usize
+    }
+
+    /// Read without telling the runtime (snapshots only).
+    pub fn raw(&self) -> usize {
+        self.v.load(Ordering::SeqCst)
+    }
+
+    pub fn load(&self, ord: Ordering) -> usize {
+        match rt() {
+            None => self.v.load(ord),
+            Some(r) => {
+                r.op(OpKind::Load, self.addr(), 0, 0);
+                let x = self.v.load(ord);
+                r.done(OpKind::Load, self.addr(), x, true);
+                x
+            }
+        }
+    }
+
+    pub fn store(&self, val: usize, ord: Ordering) {
+        match rt() {
+            None => self.v.store(val, ord),
+            Some(r) => {
+                r.op(OpKind::Store, self.addr(), val, 0);
+                self.v.store(val, ord);
+                r.done(OpKind::Store, self.addr(), val, true);
+            }
+        }
+    }
+
+    pub fn compare_exchange(
+        &self,
+        cur: usize,
+        new: usize,
+        s: Ordering,
+        f: Ordering,
+    ) -> Result<usize, usize> {
+        match rt() {
+            None => self.v.compare_exchange(cur, new, s, f),
+            Some(r) => {
+                r.op(OpKind::Cas, self.addr(), cur, new);
+                let x = self.v.compare_exchange(cur, new, s, f);
+                match x {
+                    Ok(v) => r.done(OpKind::Cas, self.addr(), v, true),
+                    Err(v) => r.done(OpKind::Cas, self.addr(), v, false),
+                }
+                x
+            }
+        }
+    }
+
+    pub fn compare_exchange_weak(
+        &self,
+        cur: usize,
+        new: usize,
+        s: Ordering,
+        f: Ordering,
+    ) -> Result<usize, usize> {
+        match rt() {
+            None => self.v.compare_exchange_weak(cur, new, s, f),
+            Some(r) => {
+                r.op(OpKind::CasWeak, self.addr(), cur, new);
+                let x = if r.spurious() {
+                    Err(self.v.load(f))
+                } else {
+                    self.v.compare_exchange(cur, new, s, f)
+                };
+                match x {
+                    Ok(v) => r.done(OpKind::CasWeak, self.addr(), v, true),
+                    Err(v) => r.done(OpKind::CasWeak, self.addr(), v, false),
+                }
+                x
+            }
+        }
+    }
+
+    fn rmw<F: FnOnce(&sa::AtomicUsize) -> usize>(&self, k: OpKind, val: usize, f: F) -> usize {
+        match rt() {
+            None => f(&self.v),
+            Some(r) => {
+                r.op(k, self.addr(), val, 0);
+                let x = f(&self.v);
+                r.done(k, self.addr(), x, true);
+                x
+            }
+        }
+    }
+
+    pub fn fetch_add(&self, val: usize, ord: Ordering) -> usize {
+        self.rmw(OpKind::FetchAdd, val, |v| v.fetch_add(val, ord))
+    }
+
+    pub fn fetch_sub(&self, val: usize, ord: Ordering) -> usize {
+        self.rmw(OpKind::FetchSub, val, |v| v.fetch_sub(val, ord))
+    }
+
+    pub fn fetch_or(&self, val: usize, ord: Ordering) -> usize {
+        self.rmw(OpKind::FetchOr, val, |v| v.fetch_or(val, ord))
+    }
+
+    pub fn fetch_and(&self, val: usize, ord: Ordering) -> usize {
+        self.rmw(OpKind::FetchAnd, val, |v| v.fetch_and(val, ord))
+    }
+}
+
+pub struct AtomicPtr<T> {
+    v: sa::AtomicPtr<T>,
+}
+
+impl<T> AtomicPtr<T> {
+    pub fn new(p: *mut T) -> AtomicPtr<T> {
+        AtomicPtr {
+            v: sa::AtomicPtr::new(p),
+        }
+    }
+
+    #[inline]
+    fn addr(&self) -> usize {
+        self as *const AtomicPtr<T> as usize
+    }
+
+    pub fn raw(&self) -> *mut T {
+        self.v.load(Ordering::SeqCst)
+    }
+
+    pub fn load(&self, ord: Ordering) -> *mut T {
+        match rt() {
+            None => self.v.load(ord),
+            Some(r) => {
+                r.op(OpKind::PtrLoad, self.addr(), 0, 0);
+                let x = self.v.load(ord);
+                r.done(OpKind::PtrLoad, self.addr(), x as usize, true);
+                x
+            }
+        }
+    }
+
+    pub fn compare_exchange(
+        &self,
+        cur: *mut T,
+        new: *mut T,
+        s: Ordering,
+        f: Ordering,
+    ) -> Result<*mut T, *mut T> {
+        match rt() {
+            None => self.v.compare_exchange(cur, new, s, f),
+            Some(r) => {
+                r.op(OpKind::PtrCas, self.addr(), cur as usize, new as usize);
+                let x = self.v.compare_exchange(cur, new, s, f);
+                match x {
+                    Ok(v) => r.done(OpKind::PtrCas, self.addr(), v as usize, true),
+                    Err(v) => r.done(OpKind::PtrCas, self.addr(), v as usize, false),
+                }
+                x
+            }
+        }
+    }
+}
+
+// ---------------------------------------------------------------------------
+// Threads
+
+pub fn yield_now() {
+    match rt() {
+        None => std::thread::yield_now(),
+        Some(r) => {
+            r.op(OpKind::Yield, 0, 0, 0);
+            r.done(OpKind::Yield, 0, 0, true);
+        }
+    }
+}
+
+pub fn sleep(d: std::time::Duration) {
+    match rt() {
+        None => std::thread::sleep(d),
+        Some(r) => {
+            r.op(OpKind::Sleep, 0, d.as_millis() as usize, 0);
+            r.done(OpKind::Sleep, 0, 0, true);
+        }
+    }
+}
+
+// ---------------------------------------------------------------------------
+// Mutexes. On agent threads mutual exclusion is provided by the runtime (which
+// knows the owner and never schedules a contender); elsewhere a real lock is used.
+
+pub struct RawShimMutex<T> {
+    real: parking_lot::Mutex<()>,
+    data: UnsafeCell<T>,
+}
+
+unsafe impl<T: Send> Send for RawShimMutex<T> {}
+unsafe impl<T: Send> Sync for RawShimMutex<T> {}
+
+pub struct ShimGuard<'a, T> {
+    m: &'a RawShimMutex<T>,
+    real: Option<parking_lot::MutexGuard<'a, ()>>,
+}
+
+impl<T> RawShimMutex<T> {
+    fn new(v: T) -> RawShimMutex<T> {
+        RawShimMutex {
+            real: parking_lot::Mutex::new(()),
+            data: UnsafeCell::new(v),
+        }
+    }
+
+    #[inline]
+    fn addr(&self) -> usize {
+        self as *const RawShimMutex<T> as usize
+    }
+
+    fn lock(&self) -> ShimGuard<'_, T> {
+        match rt() {
+            None => ShimGuard {
+                m: self,
+                real: Some(self.real.lock()),
+            },
+            Some(r) => {
+                r.op(OpKind::Lock, self.addr(), 0, 0);
+                r.done(OpKind::Lock, self.addr(), 0, true);
+                ShimGuard {
+                    m: self,
+                    real: None,
+                }
+            }
+        }
+    }
+
+    fn try_lock(&self) -> Option<ShimGuard<'_, T>> {
+        match rt() {
+            None => self.real.try_lock().map(|g| ShimGuard {
+                m: self,
+                real: Some(g),
+            }),
+            Some(r) => {
+                if r.try_lock(self.addr()) {
+                    Some(ShimGuard {
+                        m: self,
+                        real: None,
+                    })
+                } else {
+                    None
+                }
+            }
+        }
+    }
+
+    /// Raw access for snapshots (all agents suspended).
+    pub unsafe fn peek(&self) -> &T {
+        &*self.data.get()
+    }
+}
+
+impl<'a, T> Deref for ShimGuard<'a, T> {
+    type Target = T;
+    fn deref(&self) -> &T {
+        unsafe { &*self.m.data.get() }
+    }
+}
+
+impl<'a, T> DerefMut for ShimGuard<'a, T> {
+    fn deref_mut(&mut self) -> &mut T {
+        unsafe { &mut *self.m.data.get() }
+    }
+}
+
+impl<'a, T> Drop for ShimGuard<'a, T> {
+    fn drop(&mut self) {
+        if self.real.is_none() {
+            if let Some(r) = rt() {
+                r.event(EvKind::Unlock, self.m.addr(), 0, "");
+            }
+        }
+    }
+}
+
+/// Stand-in for `std::sync::Mutex` (the subset the crate uses).
+pub struct StdMutex<T> {
+    raw: RawShimMutex<T>,
+}
+
+impl<T> StdMutex<T> {
+    pub fn new(v: T) -> StdMutex<T> {
+        StdMutex {
+            raw: RawShimMutex::new(v),
+        }
+    }
+
+    pub fn lock(&self) -> LockResult<ShimGuard<'_, T>> {
+        Ok(self.raw.lock())
+    }
+
+    pub fn try_lock(&self) -> TryLockResult<ShimGuard<'_, T>> {
+        match self.raw.try_lock() {
+            Some(g) => Ok(g),
+            None => Err(TryLockError::WouldBlock),
+        }
+    }
+
+    pub fn get_mut(&mut self) -> LockResult<&mut T> {
+        Ok(unsafe { &mut *self.raw.data.get() })
+    }
+
+    pub unsafe fn peek(&self) -> &T {
+        self.raw.peek()
+    }
+
+    pub fn addr(&self) -> usize {
+        self.raw.addr()
+    }
+}
+
+/// Stand-in for `parking_lot::Mutex` (the subset the crate uses).
+pub struct PlMutex<T> {
+    raw: RawShimMutex<T>,
+}
+
+impl<T: Default> Default for PlMutex<T> {
+    fn default() -> PlMutex<T> {
+        PlMutex::new(T::default())
+    }
+}
+
+impl<T> PlMutex<T> {
+    pub fn new(v: T) -> PlMutex<T> {
+        PlMutex {
+            raw: RawShimMutex::new(v),
+        }
+    }
+
+    pub fn lock(&self) -> ShimGuard<'_, T> {
+        self.raw.lock()
+    }
+
+    pub unsafe fn peek(&self) -> &T {
+        self.raw.peek()
+    }
+
+    pub fn addr(&self) -> usize {
+        self.raw.addr()
+    }
+}
+
+/// Stand-in for `parking_lot::Condvar` (the subset the crate uses).
+#[derive(Default)]
+pub struct PlCondvar {
+    real: parking_lot::Condvar,
+}
+
+impl PlCondvar {
+    pub fn new() -> PlCondvar {
+        PlCondvar {
+            real: parking_lot::Condvar::new(),
+        }
+    }
+
+    pub fn addr(&self) -> usize {
+        self as *const PlCondvar as usize
+    }
+
+    pub fn wait<T>(&self, guard: &mut ShimGuard<'_, T>) {
+        match guard.real {
+            Some(ref mut g) => self.real.wait(g),
+            None => {
+                if let Some(r) = rt() {
+                    r.cv_wait(self.addr(), guard.m.addr());
+                }
+            }
+        }
+    }
+
+    pub fn notify_all(&self) {
+        match rt() {
+            None => {
+                self.real.notify_all();
+            }
+            Some(r) => {
+                r.op(OpKind::CvNotifyAll, self.addr(), 0, 0);
+                r.done(OpKind::CvNotifyAll, self.addr(), 0, true);
+            }
+        }
+    }
+}
+
+/// `use crate::verif_hooks::pl as parking_lot;` makes `parking_lot::Mutex` and
+/// `parking_lot::Condvar` name the stand-ins.
+pub mod pl {
+    pub use super::PlCondvar as Condvar;
+    pub use super::PlMutex as Mutex;
+}
